@@ -110,10 +110,7 @@ func c04BuilderCalls(fd *ast.FuncDecl, what string) [][2]string {
 		}
 		return true
 	})
-	if builder == "" {
-		fail("C04: %s: no script builder local found", what)
-		return nil
-	}
+	// (no local at all: the whole script is one chained expression)
 	var chain func(e ast.Expr) bool
 	chain = func(e ast.Expr) bool {
 		c, ok := c04Unparen(e).(*ast.CallExpr)
@@ -498,12 +495,40 @@ func c04DefiningStmts(body *ast.BlockStmt, name string, params []string) []ast.S
 		}
 	}
 	var res []ast.Stmt
-	for _, st := range body.List {
+	for i, st := range body.List {
+		hit := false
 		for w := range want {
-			if c04AssignsTo(st, w) {
-				res = append(res, st)
-				break
+			hit = hit || c04AssignsTo(st, w)
+		}
+		if !hit {
+			continue
+		}
+		res = append(res, st)
+		// `x, err := f(…)` followed by `if err != nil { return … }`: the check of a
+		// value defined alongside belongs to the definition
+		as, ok := st.(*ast.AssignStmt)
+		if !ok || len(as.Lhs) < 2 || i+1 >= len(body.List) {
+			continue
+		}
+		ifs, ok := body.List[i+1].(*ast.IfStmt)
+		if !ok {
+			continue
+		}
+		co := map[string]bool{}
+		for _, l := range as.Lhs {
+			if id, ok := l.(*ast.Ident); ok && !want[id.Name] {
+				co[id.Name] = true
 			}
+		}
+		mentions := false
+		ast.Inspect(ifs.Cond, func(n ast.Node) bool {
+			if id, ok := n.(*ast.Ident); ok && co[id.Name] {
+				mentions = true
+			}
+			return true
+		})
+		if mentions {
+			res = append(res, ifs)
 		}
 	}
 	return res
